@@ -76,3 +76,20 @@ package lists
 //@   at call MarshalData#1 assert forall(k, 0, len(old@pre1(array)), unbox(arg2, []any)[k] == old@pre1(array[k]))
 //@   at call MarshalData#1 assert forall(k, 0, len(params), unbox(arg2, []any)[len(old@pre1(array)) + k] == $cgt(any(params[k]), cachedDt))
 //@   ensures imp(result == nil, called("MarshalData") && called("(lang/stdio.Io).Write"))
+
+// ---- C38: msort ------------------------------------------------------------------------------------------
+// Every element read is appended - verbatim - to the slice, exactly that slice is sorted in place by
+// sort.Strings and exactly that slice is marshalled: nothing is added or dropped on the way (that
+// sort.Strings yields an ordered permutation is the library's contract).
+//@ func cmdMSort$1 [C38]
+//@   check none
+//@   at call (*Process).HasCancelled#* modifies nothing
+//@   ensures imp(!$hasCancelled(p), len(a) == old(len(a)) + 1 && bytesof(a[len(a) - 1], b))
+//@   ensures imp(!$hasCancelled(p), forall(k, 0, old(len(a)), a[k] == old(a[k])))
+//@   ensures imp($hasCancelled(p), a == old(a))
+//@ func cmdMSort [C38]
+//@   check none
+//@   at call (lang/stdio.Io).ReadArray#* modifies a
+//@   at call sort.Strings#1 assert arg0 == a
+//@   at call MarshalData#1 assert typeis(arg2, []string) && unbox(arg2, []string) == a && arg1 == dt
+//@   ensures imp(result == nil, called("sort.Strings") && called("MarshalData") && called("(lang/stdio.Io).Write"))
